@@ -6,7 +6,7 @@ CRATE = "hx-sched"
 RULE = pc.RULE
 ASSUMPTIONS = pc.ASSUMPTIONS
 TRUSTED = pc.TRUSTED
-CONSTS_USED = pc.CONSTS_USED
+CONSTS_USED = list(pc.CONSTS_USED) + ["pool_payload_drop_after_wait"]
 GENERATED_OBLIGATIONS = [
     "C06_cfg_good : pool_unpark_when_old = 1, pool_wait_is_loop = true, pool_wait_while_nonzero = true",
     "C06_dec_is_release : is_release pool_dec_ordering = true",
